@@ -40,7 +40,7 @@ extern "C" void h_knob() {
 }
 """ % fn
     return dict(unit="K26_set_global_tbb_concurrency", lang="cpp", source="include/parmcb/util.hpp set_global_tbb_concurrency (verbatim)",
-                text=harness, entry="h_knob", mode="proof", unwind=6, timeout=120,
+                text=harness, entry="h_knob", mode="proof", unwind=6, timeout=600,
                 bound="all n>=1 (below the default), call sequences of length 3 from an arbitrary earlier history; straight-line code, model loops over 4 slots fully unwound",
                 cc_flags=["-nostdinc", "-I", os.path.join(VERIF, "stubs/knob")], flags=["--drop-unused-functions"],
                 rewrites=[dict(pattern="(function text between anchors)", fired=1, expected=1, kind="verbatim", note="no rewrite")],
